@@ -579,6 +579,38 @@ def entry_points(qr, case, work):
         c.measure_reorganization_energy()
         c.get_reorganization_energy()
 
+    def _bath(ftype, cls):
+        def run():
+            tb = qr.TimeAxis(0.0, 300, 1.0)
+            with qr.energy_units("1/cm"):
+                prm = dict(ftype=ftype, reorg=35.0, T=300.0)
+                if ftype == "UnderdampedBrownian":
+                    prm.update(freq=400.0, gamma=1.0 / 120.0 / 1.8836515e-4)
+                else:
+                    prm.update(cortime=80.0)
+                f = cls(tb, prm)
+                g = cls(tb, dict(ftype="OverdampedBrownian", reorg=20.0, cortime=60.0, T=300.0))
+            f.copy() if hasattr(f, "copy") else None
+            h = f + g
+            h2 = g + f
+            f2 = cls(tb, f.params)
+            f2 += f2
+            f2 += g
+            h.get_reorganization_energy()
+            if cls is qr.CorrelationFunction:
+                f.get_SpectralDensity()
+                f.get_FTCorrelationFunction()
+                f.get_OddFTCorrelationFunction()
+                f.get_EvenFTCorrelationFunction()
+                h.get_FTCorrelationFunction()
+            else:
+                f.get_CorrelationFunction()
+                f.get_FTCorrelationFunction()
+        return run
+    for _ft in ("OverdampedBrownian", "OverdampedBrownian-HighTemperature", "UnderdampedBrownian"):
+        for _cls in (qr.CorrelationFunction, qr.SpectralDensity):
+            eps.append(("bath functions [%s %s]: copy, sums, transforms" % (_cls.__name__, _ft), _bath(_ft, _cls)))
+
     @ep("TimeAxis/FrequencyAxis/DFunction transforms")
     def _():
         t = S["t"]
